@@ -918,6 +918,68 @@ def record_backend(orb, log):
     return be
 
 
+def history_checks(ctx):
+    """(1) an orbit that already carries a period close to (but different from) the corrected one: after `correct()` the orbit's period is the
+    corrected one (state and period define the periodic solution together); (2) ONE Newton backend / Armijo stepper factory used for two
+    different residual maps in sequence: the line search of the second solve works on the second problem's residual."""
+    from hiten.system import System
+    from hiten.algorithms.corrector.backends.newton import _NewtonBackend
+    from hiten.algorithms.corrector.stepping import make_armijo_stepper
+    from hiten.algorithms.corrector.types import CorrectorInput
+    # ---- (1) ----------------------------------------------------------------------------------------------
+    sysm = System.from_bodies("earth", "moon")
+    mu = float(sysm.mu)
+    orb = sysm.get_libration_point(1).create_orbit("halo", amplitude_z=0.12, zenith="northern")
+    try:
+        orb.correct()
+        T1 = float(orb.period)
+        orb.period = T1 * (1.0 + 3e-6)          # e.g. a period typed in with six significant digits
+        res = orb.correct()
+        T2 = float(orb.period)
+        x0 = np.array(orb.initial_state, dtype=float)
+        ctx.case(("history", "period-close"), nontrivial=True, kind="history:period")
+        clos = float(np.abs(scipy_flow(x0, T2, mu) - x0).max())
+        if not (abs(T2 - 2.0 * float(res.half_period)) <= 1e-12 * T2 and clos <= 1e-7):
+            viol_once(ctx, "orbit:halo:stale-period-after-correction",
+                      "correct() on an orbit that carried the nearby period %.12g leaves period=%.12g although the correction found 2*half_period=%.12g "
+                      "(closure over the orbit's period %.3g)" % (T1 * (1.0 + 3e-6), T2, 2.0 * float(res.half_period), clos),
+                      {"system": "earth-moon", "L": 1, "family": "halo", "history": ["correct()", "period := T*(1+3e-6)", "correct()"],
+                       "period_after": T2, "two_half_period": 2.0 * float(res.half_period), "initial_state": x0.tolist(), "closure": clos})
+    except Exception as ex:
+        ctx.notes.append("history_checks(period): %r" % (ex,))
+    # ---- (2) ----------------------------------------------------------------------------------------------
+    factory = make_armijo_stepper()
+    backend = _NewtonBackend(stepper_factory=factory)
+    probs = [("arctan", lambda x: np.array([math.atan(x[0])]), lambda x: np.array([[1.0 / (1.0 + x[0] * x[0])]]), np.array([2.0])),
+             ("quadratic-2d", lambda x: np.array([x[0] * x[0] + x[1] - 1.1, x[0] - x[1] * x[1] + 0.3]),
+              lambda x: np.array([[2 * x[0], 1.0], [1.0, -2 * x[1]]]), np.array([1.5, 1.2])),
+             ("arctan-again", lambda x: np.array([math.atan(x[0]) - 0.2]), lambda x: np.array([[1.0 / (1.0 + x[0] * x[0])]]), np.array([-1.5]))]
+    for name, f, J, x0 in probs:
+        seen = []
+
+        def rf(x, _f=f, _s=seen):
+            r = _f(np.asarray(x, dtype=float))
+            _s.append(float(np.linalg.norm(r)))
+            return r
+        ctx.case(("history", "backend-reuse", name), nontrivial=True, kind="history:backend-reuse")
+        try:
+            out = backend.run(request=CorrectorInput(initial_guess=x0.copy(), residual_fn=rf, jacobian_fn=J, norm_fn=None, max_attempts=40,
+                                                     tol=1e-12, max_delta=None, fd_step=1e-8))
+            xc = np.asarray(out.x_corrected, dtype=float)
+            rn = float(np.linalg.norm(f(xc)))
+            ok = rn < 1e-12
+            what = "returned a point with residual %.3g of ITS problem" % rn
+        except Exception as ex:
+            ok, what = False, "raised %s" % type(ex).__name__
+        if not ok:
+            viol_once(ctx, "newton:backend-reuse",
+                      "one _NewtonBackend / make_armijo_stepper() factory used for several residual maps in sequence: the solve of %r %s (smooth, well-conditioned, "
+                      "solved from the same start by a fresh backend)" % (name, what),
+                      {"history": [p[0] for p in probs[:[p[0] for p in probs].index(name) + 1]], "problem": name, "x0": x0.tolist(),
+                       "residual_norms_seen": seen[:30]})
+            break
+
+
 def numerics(ctx, cases=None):
     from hiten.system import System
     systems = {}
@@ -1098,6 +1160,7 @@ def _run(ctx):
     ctx.guard("operator_checks", operator_checks, ctx, 2000 if big else 100)
     ctx.extra["correspondence_cases"] = ctx.corr_cases
     numerics(ctx)
+    history_checks(ctx)
     if ctx.broken:
         concrete = [v for v in ctx.violations if v["found_input"]]
         solver = [v for v in concrete if v["key"].split(":")[0] in ("newton", "armijo", "plain", "orbit")]
